@@ -55,6 +55,7 @@ func (sc *synonymIndexCache) loadOrCreate(fieldID uint16, mem []byte) (*vellum.F
 	}
 
 	sc.m.RUnlock()
+	verifSynCacheGate()
 
 	sc.m.Lock()
 	defer sc.m.Unlock()
